@@ -130,3 +130,23 @@ pub fn main_shapes(log: &[Event]) -> Vec<Shape> {
     }
     v
 }
+
+/// Fault injection in the instrumented merlin (no-ops without the `mon` feature).
+#[cfg(feature = "mon")]
+pub fn force_challenges(outs: Vec<Vec<u8>>) {
+    merlin::monitor::force_challenges(outs)
+}
+#[cfg(feature = "mon")]
+pub fn tamper_fill(idx: usize) {
+    merlin::monitor::tamper_fill(idx)
+}
+#[cfg(feature = "mon")]
+pub fn disarm() {
+    merlin::monitor::disarm()
+}
+#[cfg(not(feature = "mon"))]
+pub fn force_challenges(_outs: Vec<Vec<u8>>) {}
+#[cfg(not(feature = "mon"))]
+pub fn tamper_fill(_idx: usize) {}
+#[cfg(not(feature = "mon"))]
+pub fn disarm() {}
